@@ -238,7 +238,7 @@ func c19KeyVariants(ver *fx.Version) []map[string]interface{} {
 
 func c19(r *hx.Run) {
 	fx.Quiet()
-	r.Rule = "(handler configurations: create responses and long-form resolution under every combination of label, domain and namespace alias, ids per the rule documented in the handler; GetHint) (the generic doctransformer is run on the same jobs with plain options: document == internal document + id, same metadata, missing id refused) internal documents built from every validator-accepted key variant (6 key types x {Ed25519/P-256/secp256k1 JWK, base58} x 8 purpose sets), all ordered pairs of a 24-variant subset (thorough: triples of 10), service variants (string/list/object endpoint x extra members) singly and in pairs, documents with 3..33 keys / services / aliases, alias lists, foreign members; resolution models over commitments {both, recovery only, none} x deactivated x anchor origin {nil, string, object} x version id x times x references; transformer options base x method context list (0, 1, 2, 4 entries) x operation lists x {default, custom} key-context map; TransformDocument on the real transformer must equal the independent projection, also after the same transformer instance has transformed another document (results do not share state), (own base58/multibase) and metadata computed from the model; the same relation through DocumentHandler.ResolveDocument for published and unpublished DIDs. Non-trivial: every distinct (document, model, options) triple."
+	r.Rule = "(handler configurations: create responses and long-form resolution under every combination of label, domain and namespace alias, ids per the rule documented in the handler; GetHint) (the generic doctransformer is run on the same jobs with plain options: document == internal document + id, same metadata, missing id refused) internal documents built from every validator-accepted key variant (6 key types x {Ed25519/P-256/secp256k1 JWK, base58} x 8 purpose sets), all ordered pairs of a 24-variant subset (thorough: triples of 10), a key repeating one purpose 2..5 times next to a key with each single purpose in both orders, service variants (string/list/object endpoint x extra members) singly and in pairs, documents with 3..33 keys / services / aliases, alias lists, foreign members; resolution models over commitments {both, recovery only, none} x deactivated x anchor origin {nil, string, object} x version id x times x references; transformer options base x method context list (0, 1, 2, 4 entries) x operation lists x {default, custom} key-context map; TransformDocument on the real transformer must equal the independent projection, also after the same transformer instance has transformed another document (results do not share state), (own base58/multibase) and metadata computed from the model; the same relation through DocumentHandler.ResolveDocument for published and unpublished DIDs. Non-trivial: every distinct (document, model, options) triple."
 	ver := fx.NewVersion(fx.DefaultProtocol(), nil)
 	keyVars := c19KeyVariants(ver)
 	r.Extra["key_variants"] = len(keyVars)
@@ -273,6 +273,42 @@ func c19(r *hx.Run) {
 		for j, b := range sub {
 			docs = append(docs, docCase{fmt.Sprintf("keys%d,%d", i, j), doc.Doc{"publicKey": []interface{}{clone(a, "ka"), clone(b, "kb")}, "service": []interface{}{clone(svcVars[0], "")}}})
 		}
+	}
+	// purpose multiplicity: a purpose may be repeated in a key's list (the validator only limits the list to five allowed
+	// entries); one key repeats a purpose 2..5 times - more often than the document has keys - next to a key with any one
+	// purpose, in both orders: every reference appears in its own section, as often as named
+	{
+		base := keyVars[0]
+		for _, kv := range keyVars {
+			if kv["type"] == "JsonWebKey2020" {
+				base = kv
+				break
+			}
+		}
+		accepted := 0
+		for pi, p := range c19Purposes {
+			for m := 2; m <= 5; m++ {
+				rep := make([]interface{}, m)
+				for x := range rep {
+					rep[x] = p
+				}
+				a := clone(base, "ka")
+				a["purposes"] = rep
+				var pp patch.Patch
+				_ = json.Unmarshal(mustJSON(map[string]interface{}{"action": "add-public-keys", "publicKeys": []interface{}{a}}), &pp)
+				if ver.Parser.ValidateDelta(&model.DeltaModel{UpdateCommitment: fx.Commit(fx.NewKey(fx.Ed25519, "c19/ed"), fx.SHA256), Patches: []patch.Patch{pp}}) != nil {
+					continue
+				}
+				accepted++
+				for qi, q := range c19Purposes {
+					b := clone(base, "kb")
+					b["purposes"] = []interface{}{q}
+					docs = append(docs, docCase{fmt.Sprintf("purpose-multiplicity|%d|x%d|%d|ab", pi, m, qi), doc.Doc{"publicKey": []interface{}{a, b}}},
+						docCase{fmt.Sprintf("purpose-multiplicity|%d|x%d|%d|ba", pi, m, qi), doc.Doc{"publicKey": []interface{}{b, a}}})
+				}
+			}
+		}
+		r.Extra["purpose_multiplicity_lists_accepted_by_the_validator"] = accepted
 	}
 	if r.Tier == "thorough" {
 		s10 := sub[:10]
